@@ -38,11 +38,11 @@ class HdsModel(Model):
         self.globals["SECTOR_SIZE"] = IntV(z3.IntVal(512))
         self.items["self.bat"] = self.bat_getitem
         self.methods[("self", "_iter_runs")] = self.iter_runs
-        self.hyps += [z3.ForAll([K], z3.And(self.BAT(K) >= 0, self.BAT(K) <= U32)), self.nbat >= 0, self.nbat <= U32,
+        self.hyps += [z3.ForAll([T], z3.And(self.BAT(T) >= 0, self.BAT(T) <= U32)), self.nbat >= 0, self.nbat <= U32,
                       self.cs >= 0, self.mult >= 0, self.mult <= U32, self.size >= 0, byte_range_axiom(self.farr)]
         if wf:
             self.hyps += [self.cs > 0, self.mult > 0, self.size <= self.nbat * self.cs, self.psize >= self.size,
-                          z3.ForAll([K], z3.Implies(z3.And(0 <= K, K < self.nbat, self.BAT(K) != 0), self.BAT(K) * self.mult * 512 + self.cs <= self.fsize))]
+                          z3.ForAll([T], z3.Implies(z3.And(0 <= T, T < self.nbat, self.BAT(T) != 0), self.BAT(T) * self.mult * 512 + self.cs <= self.fsize))]
 
     def pz(self, x):  # parent byte or zero
         return z3.If(self.has_parent, z3.Select(self.parr, x), 0)
